@@ -20,6 +20,7 @@ def run(ctx):
                'swarm family: every initial fitness (the FLOAT_MAX sentinel) is strictly above every objective value',
                'a freshly built space is feasible (C06 / C01_fresh_space_is_admissible)')
     meta, errors = _ir.regenerate(ctx)
+    _ir.agent_data_model(ctx)
     ok, log = ctx.build_props()
     if ok:
         _ir.nonvacuity(ctx, meta)
